@@ -24,7 +24,9 @@ THEOREMS = ["Names.resolve_direct_import", "Names.resolve_module_alias", "Names.
             # re-exports (layers PdProps/C04ReexpA..G): soundness with MOVED objects, order independence, clean run
             "Imports.resolve_sound_reexport", "Imports.resolve_order_independent_reexport", "Imports.wfr_run_clean",
             "Imports.resolve_sound_reexport_of", "Imports.resolve_sound_reexport_partial_order_counterexample",
-            "Imports.pkgFromOk_needed_counterexample",
+            # find_object's bare-name fall-back (fixed in /repo 996ac8b): historical counterexample over findObjectOld, and the
+            # same project now inside WFr and order independent
+            "Imports.find_object_bare_name_counterexample", "Imports.hidden_cycle_order_independent",
             "Imports.reexport_sound_bounded", "Imports.ResolveSoundReexport.order_independent",
             # lemmas of PdProps/C04.lean they rest on (the layers below are PdProps/C04Base.lean and C04Clean.lean)
             "Imports.alias_of_stmt", "Imports.def_registered", "Imports.walk_path"]
@@ -487,6 +489,7 @@ def run(ctx: Ctx) -> None:
     run_reexports(ctx)
     run_reexport_sound(ctx)
     replay_hidden_cycle_witness(ctx)
+    replay_early_mro_witness(ctx)
     replay_witnesses(ctx)
 
 
@@ -811,9 +814,10 @@ def run_reexport_sound(ctx: Ctx) -> None:
 
 
 def replay_hidden_cycle_witness(ctx: Ctx) -> None:
-    """the witness of Imports.pkgFromOk_needed_counterexample on the real pydoctor: `from p import qq` makes
-    getProcessedModule('p.qq') find - through find_object's bare-name fall-back - and PROCESS the unrelated root module `qq`;
-    where `K` is documented then depends on the processing order (open finding order-dependent:find-object-bare-name)"""
+    """the witness of Imports.find_object_bare_name_counterexample / hidden_cycle_order_independent on the real pydoctor: before
+    /repo 996ac8b `from p import qq` made getProcessedModule('p.qq') find - through find_object's bare-name fall-back - and
+    PROCESS the unrelated root module `qq`, and where `K` is documented then depended on the processing order (finding
+    order-dependent:find-object-bare-name, fixed). Now: `qq.K` under both orders, as the model says."""
     units = [Unit("p", True, "", None),
              Unit("dd", False, "try:\n    from p import qq as z\nexcept ImportError:\n    z = None\nclass K:\n    '''ID:K'''\n", None),
              Unit("qq", False, "from dd import K\n__all__ = ['K']\n", None)]
@@ -826,7 +830,47 @@ def replay_hidden_cycle_witness(ctx: Ctx) -> None:
         ctx.fail("order-dependent:find-object-bare-name", {"units": {u.qname: u.source for u in units}, "orders": [[1, 2, 0], [2, 1, 0]]},
                  "the class K of dd.py is documented as %s when dd is processed first and as %s when qq is" % (where[0], where[1]))
     else:
+        if where != [["qq.K"], ["qq.K"]]:       # Imports.hidden_cycle_order_independent
+            ctx.disagree("witness-hidden-cycle", {"units": {u.qname: u.source for u in units}}, [["qq.K"], ["qq.K"]], where)
         ctx.count("witness:hidden-cycle:order-independent-now")
+
+
+def replay_early_mro_witness(ctx: Ctx) -> None:
+    """`Class.mro()` while the modules are visited (Imports.midMro; /repo 7c3f474: C3 over the bases resolved so far, not the
+    depth-first `allbases`): a base written as an INHERITED nested class (`class E(D.N)`, diamond `D(B, C)`, `N` defined in
+    `A` and in `C`) is resolved at visit time through `D.mro()`; what `E` inherits (`w`, bound in both `N`s) shows it. Model vs the real System, and
+    the real System vs CPython."""
+    src = ("class A:\n    '''ID:A'''\n    class N:\n        '''ID:AN'''\n        w = 1\n"
+           "class B(A):\n    '''ID:B'''\n"
+           "class C(A):\n    '''ID:C'''\n    class N:\n        '''ID:CN'''\n        w = 2\n"
+           "class D(B, C):\n    '''ID:D'''\n"
+           "class E(D.N):\n    '''ID:E'''\n")
+    units = [Unit("M", False, src, None)]
+    try:
+        toks, info = abstract_project(units, pd_only=True)
+    except Unsupported as e:
+        ctx.count("witness:early-mro:unsupported:" + str(e))
+        return
+    system, mods, dup = build_real(units, [0])
+    names = ["E.w", "D.N", "D.N.w", "C.N.w", "A.N.w"]
+    qs = ["R|0|-|%s" % enc(d) for d in names]
+    ans = [pd_answer(mods[0], d) for d in names]
+    compare_lines(ctx, "imports-build-early-mro",
+                  ["imports build " + " ".join(toks) + " O|0 ? " + " ".join(qs)],
+                  ["ok bad=%s | %s | %s" % ("true" if dup else "false", pd_dump(system), " ".join(ans))],
+                  [{"units": {"M": src}, "names": names}])
+    py = run_cpython([{"files": files_of(units), "modules": ["M"], "sites": True}])[0]
+    pyv = (py.get("sites") or {}).get("M", {}).get("E.w")
+    r = mods[0].resolveName("E.w")
+    pd = None if r is None else r.fullName()
+    ctx.case("witness:early-mro:E.w", True, {"pydoctor": pd, "python": pyv})
+    if py.get("error") or pyv != "v:2":
+        ctx.disagree("witness-early-mro", {"units": {"M": src}}, "Python: E.w is the variable 2 of C.N", str(pyv))
+    elif pd is not None and pd != "M.C.N.w":
+        ctx.fail("unsound:inherited-nested-base:depth-first", {"units": {"M": src}, "scope": "M", "name": "E.w"},
+                 f"in M, 'E.w' resolves to {pd} but E derives from D.N = C.N (C3 order of D), whose w Python finds")
+    else:
+        ctx.count("witness:early-mro:sound-now")
 
 
 def replay_witnesses(ctx: Ctx) -> None:
